@@ -160,8 +160,9 @@ abbrev PMap := List (Str × Str)
 
 def PMap.get? (m : PMap) (k : Str) : Option Str := (m.find? (·.1 == k)).map (·.2)
 def PMap.erase (m : PMap) (k : Str) : PMap := m.filter (·.1 != k)
-def PMap.insert (m : PMap) (k v : Str) : PMap :=
-  if m.any (·.1 == k) then m.map (fun e => if e.1 == k then (k, v) else e) else m ++ [(k, v)]
+/-- `BTreeMap::insert`: the new binding replaces any earlier one for the key (the order of the
+list is immaterial: look-ups are by key and every dump is sorted) -/
+def PMap.insert (m : PMap) (k v : Str) : PMap := (k, v) :: m.filter (·.1 != k)
 def PMap.extend (m : PMap) (n : PMap) : PMap := n.foldl (fun acc e => acc.insert e.1 e.2) m
 def PMap.contains (m : PMap) (k : Str) : Bool := m.any (·.1 == k)
 
